@@ -222,6 +222,21 @@ fn run_chain(chain: &Chain, sched_for: &mut dyn FnMut(usize) -> Sched, ref_heads
         if d.direct_writes > 0 {
             rec.cov("schedule/direct-write-reports");
         }
+        if let Prof::Fixed(n) = d.sched.head_out {
+            // every buffer had this size: when each single line of the head fits into it, no call may have
+            // been refused, and the head must have come out without the driver falling back to a big buffer
+            let longest = d.head_out.split_inclusive(|b| *b == b'\n').map(|l| l.len()).max().unwrap_or(0);
+            if n >= longest {
+                rec.cov(if n == longest { "schedule/head-buffers-of-longest-line" } else { "schedule/head-buffers-fixed" });
+                if d.head_overflows > 0 {
+                    rec.fail(
+                        "C01/head-refused-although-every-line-fits",
+                        format!("exchange {}: {} of {} head writes into {} byte buffers were refused with OutputOverflow, the longest line of the head has {} bytes", i, d.head_overflows, d.head_calls, n, longest),
+                    );
+                    return None;
+                }
+            }
+        }
         heads.push(d.head_out.clone());
         offset += d.consumed;
         if d.must_close() == Some(true) {
@@ -268,6 +283,16 @@ fn random_case(rng: &mut Rng, schedules: usize, rec: &mut Rec) {
         }
         rec.cov(if small { "schedule/small-payload-profiles" } else { "schedule/large-payload-profiles" });
     }
+    // one more schedule: every buffer offered for the head is exactly as long as its longest line
+    let mut r2 = rng.fork();
+    let small = chain.small;
+    let mut mk = |i: usize| {
+        let mut s = Sched::random(&mut r2, small);
+        let longest = heads.get(i).map(|h| h.split_inclusive(|b| *b == b'\n').map(|l| l.len()).max().unwrap_or(0)).unwrap_or(64);
+        s.head_out = Prof::Fixed(longest);
+        s
+    };
+    let _ = run_chain(&chain, &mut mk, Some(&heads), rec);
 }
 
 /// One short exchange, every single arrival cut and (short ones) every pair.
@@ -363,7 +388,7 @@ impl Property for P {
     fn floors(&self, _tier: Tier) -> Vec<(String, u64)> {
         [
             "chain-of-1", "chain-of-2", "chain-of-3", "framing/chunked/*", "framing/length/*", "framing/close/Cleanup", "framing/HEAD/*", "framing/redirect-without-framing/Redirect", "request/sized-body/*", "request/chunked-body/*",
-            "request/no-body/HTTP/1.0", "single-cut", "double-cut", "unsolicited-100", "schedule/direct-write-reports", "schedule/small-payload-profiles", "schedule/large-payload-profiles", "hook:dechunk:Trailer->Ending", "hook:tick:write_chunk",
+            "request/no-body/HTTP/1.0", "single-cut", "double-cut", "unsolicited-100", "schedule/direct-write-reports", "schedule/head-buffers-of-longest-line", "schedule/small-payload-profiles", "schedule/large-payload-profiles", "hook:dechunk:Trailer->Ending", "hook:tick:write_chunk",
         ]
         .iter()
         .map(|k| (k.to_string(), 20))
